@@ -1,4 +1,4 @@
-package c05
+package c06
 
 import (
 	"fmt"
